@@ -52,8 +52,8 @@ CLAIMED = {
     'C10': dict(text="Deductive: on_response (loop-free, all paths) accepts iff status 101, Upgrade is websocket and Accept EQUALS the digest of "
                      "this State's key (sha1/base64 uninterpreted, a function of the key); State.__init__ draws a fresh 16-byte key; the header block "
                      "limit is 16 KiB in parse/Parser.feed (terminated or not); Rejected releases the socket and ends the stream. Known finding: "
-                     "Accept is compared case-insensitively (carved out, witness replayed every run). Header/request syntax: bounded stand-ins.",
-                note=TRUST + " Response.__init__/get/get_list, build_request: exhaustive small-grammar enumeration only (bounded); on_response additionally "
+                     "Accept is compared case-insensitively (carved out, witness replayed every run). WebSocket.build_request is verified on its body (DESIGN 9.13): the request is CRLF.join of `GET <resource> HTTP/1.1`, the custom headers in order, each required field (Host, Upgrade, Connection, Sec-WebSocket-Key = this connection's key, version 13, User-Agent; protocol / extension offer iff asked), nothing else, and the empty line - for any number of custom headers (loop invariant over the list of lines). Reply-header syntax (Response) and URL parsing: bounded stand-ins.",
+                note=TRUST + " Response.__init__/get/get_list and WebSocket.__init__ (urlparse -> resource, host:port): exhaustive small-grammar enumeration only (bounded); in build_request bytes.join / str.join / str.format / str(int) are assumed builtins (pyvc/externals.py) and UTF-8 encoding is taken to distribute over concatenation; the bounded request enumeration still runs beside the proof; on_response additionally "
                      "run on 448 enumerated replies as a concrete back-up (bounded).", design='DESIGN.md 5 C10, 9.11'),
     'C11': dict(text="Deductive ownership + monitor obligations: every sendall/shutdown/close on the session socket is made while the session "
                      "lock is held (per-call obligation and package-wide AST scan), write performs exactly one sendall of its whole argument, "
@@ -94,8 +94,8 @@ CLAIMED = {
     'C19': dict(text="Deductive IO-log contracts: _connect selects the proxy entry by the URL's scheme (falsy = direct), _connect_proxy connects "
                      "to the proxy's host/port (defaults by proxy scheme), writes exactly one CONNECT for the target host+port, then only reads until "
                      "ProxyParser.parse (verified: 200 only, else ProxyFail) has yielded; run() writes the upgrade request only after _connect returned "
-                     "and yields ConnectFail with nothing written otherwise. CONNECT syntax: bounded stand-in.",
-                note=TRUST + GEN + " proxy.build_request / status-line parsing: bounded enumeration only.", design='DESIGN.md 5 C19'),
+                     "and yields ConnectFail with nothing written otherwise. proxy.build_request is verified on its body (DESIGN 9.13): byte for byte `CONNECT <host>:<port> HTTP/1.1`, Host, the keep-alive fields, with credentials one Proxy-Authorization field Basic base64(user[:password]), the empty line. Status-line parsing of the answer: bounded stand-in.",
+                note=TRUST + GEN + " Status-line / header parsing of the proxy answer (Response): bounded enumeration only; in proxy.build_request str.format, str(int) and base64 are assumed builtins (uninterpreted) and UTF-8 encoding distributes over concatenation.", design='DESIGN.md 5 C19, 9.13'),
 
     'C03': dict(
         text="Deductive: sidecar contracts on the real mask_payload, Frame.build, build_close_payload, session.write/send/"
